@@ -174,6 +174,18 @@ pub fn corpus(thorough: bool) -> Vec<Tree> {
     v
 }
 
+/// programs above the size thresholds of the configuration (100 points, 25 points) that still terminate quickly
+pub fn corpus_big() -> Vec<Tree> {
+    let mut v = vec![];
+    for n in [26usize, 99, 100, 101, 120, 300] {
+        let mut items: Vec<Tree> = (0..n).map(|k| Tree::I(k as i32)).collect();
+        items.push(Tree::ins("INTEGER.+"));
+        v.push(Tree::L(items));
+        v.push(Tree::L((0..n).map(|k| if k % 7 == 3 { Tree::L(vec![Tree::I(k as i32), Tree::ins("INTEGER.DUP")]) } else { Tree::ins("NOOP") }).collect()));
+    }
+    v
+}
+
 fn run_program(real: &mut Real, prog: &Tree, fresh_iset: bool) -> Result<String, String> {
     let mut fresh;
     let r: &mut Real = if fresh_iset {
@@ -276,7 +288,8 @@ pub fn pairs(ctx: &mut Ctx) {
 /// prints "PROGRAM <text>\nEXPECT <exec>|<code>|<int>" for every terminating corpus program
 pub fn clidump(ctx: &mut Ctx) {
     let mut real = Real::new();
-    let progs = corpus(ctx.tier_thorough);
+    let mut progs = corpus(ctx.tier_thorough);
+    progs.extend(corpus_big());
     let Real { iset, icache } = &mut real;
     for p in &progs {
         let text = p.render();
@@ -286,7 +299,8 @@ pub fn clidump(ctx: &mut Ctx) {
         let r = guarded(|| {
             let mut st = PushState::new();
             PushParser::parse_program(&mut st, iset, &text);
-            PushParser::copy_to_code_stack(&mut st);
+            // the library's loader (the one PushInterpreter::run uses), not the front end's
+            PushInterpreter::copy_to_code_stack(&mut st);
             let mut steps = 0;
             let mut done = false;
             while steps < 400 {
